@@ -175,7 +175,7 @@ func checkC03(c *core.Ctx) {
 		if rootIn {
 			c.Count("in_scale_roots_accepted", 1)
 		}
-		if i%2503 == 0 {
+		if c.WantSample() {
 			c.Sample(map[string]any{"key": k.String(), "text": text, "degree": ch.degree, "base": ch.base})
 		}
 	})
